@@ -8,6 +8,7 @@ from .. import lasobj as lo
 
 ID = "C12"
 MODULE = "LasioProofs.Props.C12"
+EXTRA_MODULES = ["LasioProofs.Props.C12File"]
 RULE = ("pairs of writer configurations (version 1.2/2.0, wrap on/off, fmt / column_fmt of equal precision with different field widths, "
         "len_numeric_field None/-1/wide, lhs_spacer, spacer, data_width, mnemonics_header, data_section_header) applied to twins of the "
         "same object; both outputs re-read with the real reader; canonical header dumps compared apart from VERS and WRAP, curve data "
@@ -103,7 +104,9 @@ def classify(failure):
     d = failure.get("detail") or {}
     c = failure["case"]
     if failure["clause"] in ("one-output-unreadable", "data-config-independence", "data-version-swap") \
-            and (c.get("dlm") or "SPACE").upper() not in ("SPACE", "") and bool(c["a"]["wrap"]) != bool(c["b"]["wrap"]):
+            and (c.get("dlm") or "SPACE").upper() not in ("SPACE", "") and (bool(c["a"]["wrap"]) or bool(c["b"]["wrap"])):
+        # (a wrapped output of such an object is cut at the declared delimiter: whether it still reshapes depends on how the
+        # blank-separated values fall on the physical lines, i.e. on data_width and the field widths of that configuration)
         return "dlm-not-space-wrapped"
     if failure["clause"] == "version-swap" and d.get("section") == "Well" and ":" in (d.get("orig_value") or ""):
         return "well-colon-value-1.2"
@@ -405,6 +408,6 @@ LEVEL_TEXT = ("Machine-checked Lean 4 theorems about the executable writer/reade
               "its own version, to the same item (C12_version_swap, C12_section_version_swap); the ~Well value with a colon is the "
               "counter-example showing the hypothesis is needed. Tie: header text of both outputs vs the compiled model, and the property's "
               "oracle (two real writes, two real reads, canonical dumps and data compared) on generated objects and the example corpus.")
-LEVEL_NOTE = ("Only the header half is modelled and proved here; independence of the curve data from wrap / widths / spacers / data_width / "
+LEVEL_NOTE = ("WHOLE FILE (Props/C12File.lean): C12_file — one object written under two configurations (version, wrap, header width, data formats of equal per-column precision, spacers, data width, data-section header) and read by Tf.readFull: the Well / Curves / Parameter / Other sections are identical, the Version items are equal once VERS and WRAP are filtered out, the steering values are the written ones, the curves are equal (C12_file_parsed through readModel; corollaries C12_file_version_swap, C12_file_wrap_swap, C12_file_layout); counter-examples: a ~Version item whose SESSION mnemonic is WRAP (SessionsSane), unequal precision. Only the header half is modelled and proved here; independence of the curve data from wrap / widths / spacers / data_width / "
               "header style is checked by the oracle on the real code (theorems in C01/C10/C11). Known finding: a ~Well value containing ':' "
               "written as 1.2 re-reads split at the last colon.")
